@@ -3,7 +3,7 @@
    `repaired` policy (the code after fix C08-1) resp. Model/C08GenFail.v with cleanup = true (fix C08-2).
    Quantification: ANY state reachable by ANY history of calls; a call is ANY pass list (custom lists included), ANY tops,
    ANY design graph (cyclic ones included), ANY failure oracle — which pass body raises in which module. *)
-Require Import Hdl21.Base.PyInt Hdl21.Model.C08PassFail Hdl21.Model.C08GenFail Hdl21.Proofs.C08Proofs.
+Require Import Hdl21.Base.PyInt Hdl21.Model.C08PassFail Hdl21.Model.C08GenFail Hdl21.Proofs.C08Proofs Hdl21.Proofs.C08Fuel.
 Require Import Hdl21Gen.C08Passes.
 From Coq Require Import String.
 Open Scope list_scope.
@@ -95,6 +95,15 @@ Theorem C08_frame_call R s1 s2 c :
   agree R (fst (fst (do_call repaired s1 c))) (fst (fst (do_call repaired s2 c))).
 Proof. exact (frame_call R s1 s2 c). Qed.
 Print Assumptions C08_frame_call.
+
+(* the model's recursion bound (number of modules of the design + 1) is never the reason an elaboration fails: CFuel is
+   unreachable for every pass list, tops, design graph (cyclic ones included), oracle and starting state.
+   (The EXPORT walk of a cyclic graph that no pass has looked at - an empty pass list - does exhaust it, as the code
+   exhausts Python's recursion limit there.) *)
+Theorem C08_fuel_suffices s c :
+  snd (run_passes repaired (assoc_kids (c_kids c)) (assoc_fail (c_fail c)) (call_fuel c) (c_passes c) (c_tops c) s) <> Some CFuel.
+Proof. exact (fuel_passes (c_kids c) (assoc_fail (c_fail c)) (c_tops c) (c_passes c) s). Qed.
+Print Assumptions C08_fuel_suffices.
 
 (* 5. generators: a call that raises — in its own body, in a nested call, or by a genuine cycle — leaves nothing pending
       and nothing on the stack; it is not cached, and the next call runs the body again *)
